@@ -120,6 +120,39 @@ fn faulty_payload(fault: &str, pos: &str) -> Vec<u8> {
     b.encode_to_vec()
 }
 
+/// adversarial but well-formed contents: the expression of an `eval` / `eval_snippet` case as Datalog source
+fn eval_source(case: &Value) -> String {
+    let c = &case["c"];
+    if c["fault"] == "eval_snippet" {
+        return format!("check if {};", c["src"].as_str().unwrap());
+    }
+    let (op, a, b) = (c["op"].as_str().unwrap(), c["a"].as_str().unwrap(), c["b"].as_str().unwrap());
+    if c["where"] == "literal" {
+        format!("check if ({a} {op} {b}) === ({a} {op} {b});")
+    } else {
+        format!("val_a({a}); val_b({b}); check if val_a($a), val_b($b), ($a {op} $b) === ($a {op} $b); d($a, $b) <- val_a($a), val_b($b), ($a {op} $b) === ($a {op} $b);")
+    }
+}
+
+/// a token built with the library itself whose block at `pos` carries `extra`
+fn mint_source(extra: &str, pos: &str) -> Result<Vec<u8>, String> {
+    let e = |e: biscuit_auth::error::Token| format!("{e:?}");
+    let root = keys::keypair("R", "ed");
+    let src = format!("{BASE} {extra}");
+    if pos == "authority" {
+        return Biscuit::builder().code(&src).map_err(e)?.build_with_key_pair(&root, SymbolTable::new(), &keys::keypair("K1", "ed")).map_err(e)?.to_vec().map_err(e);
+    }
+    let t = Biscuit::builder().code(BASE).map_err(e)?.build_with_key_pair(&root, SymbolTable::new(), &keys::keypair("K1", "ed")).map_err(e)?;
+    let bb = BlockBuilder::new().code(&src).map_err(e)?;
+    if pos == "block1" {
+        t.append_with_keypair(&keys::keypair("K2", "ed"), bb).map_err(e)?.to_vec().map_err(e)
+    } else {
+        let ext = keys::keypair("E1", "ed");
+        let blk = t.third_party_request().map_err(e)?.create_block(&ext.private(), bb).map_err(e)?;
+        t.append_third_party_with_keypair(ext.public(), blk, keys::keypair("K2", "ed")).map_err(e)?.to_vec().map_err(e)
+    }
+}
+
 /// a correctly signed token carrying the faulty block at `pos`
 fn mint(c: &mut Concretiser, fault: &str, pos: &str) -> Vec<u8> {
     // signatures are memoised by abstract value: every case uses fresh payload ids
@@ -234,8 +267,19 @@ fn replay_case(c: &mut Concretiser, idx: usize, case: &Value) -> Value {
     let pos = case["c"]["pos"].as_str().unwrap();
     let mut obs: Vec<(String, String)> = Vec::new();
     let mut problems: Vec<String> = Vec::new();
-    let minted = util::catch(|| mint(c, fault, pos));
+    let minted = if fault.starts_with("eval") {
+        let src = eval_source(case);
+        match util::catch(|| mint_source(&src, pos)) {
+            Ok(Ok(b)) => Ok(b),
+            // source the parser or the builder refuses is an answer, not a crash: nothing to evaluate
+            Ok(Err(e)) => return json!({"idx": idx, "ok": true, "problems": problems, "observed": [["build", format!("refused: {}", e.chars().take(120).collect::<String>())]]}),
+            Err(p) => Err(format!("building {src:?} PANICKED: {p}")),
+        }
+    } else {
+        util::catch(|| mint(c, fault, pos))
+    };
     match minted {
+        Err(p) if fault.starts_with("eval") => problems.push(p),
         Err(p) => problems.push(format!("harness could not mint the token: {p}")),
         Ok(bytes) => {
             sweep(&bytes, &mut obs);
